@@ -1,5 +1,5 @@
 // One (kind, parameters, input set, object state, scenario) case per process.
-// usage: dict_driver --kind K --p1 N --p2 N --p3 N --input FILE --state fresh|gen|own|resaved|concat|survivor|cold|coldgen (the last two with --img-in FILE) --opt O
+// usage: dict_driver --kind K --p1 N --p2 N --p3 N --input FILE --state fresh|gen|own|resaved|concat|survivor|heir|cold|coldgen (the last two with --img-in FILE) --opt O
 //                    --ops a,b,c --skip a,b --seed N --out FILE [--memalloc N] [--img-out FILE] [--tdump FILE] [--big]
 #include "dict_ops.h"
 #include "dict_hist.h"
@@ -256,6 +256,31 @@ int main(int argc, char **argv) {
   std::string img;
   if (state == "fresh") {
     c.d = fresh;
+  } else if (state == "heir") {
+    // the loaded copy is created while the built object is alive, the built object is destroyed, the loaded copy answers
+    obs::crumb("C06,C08", "save", "save for reload");
+    img = save_image(fresh);
+    emit_image("built", img);
+    std::stringstream ss(img, std::ios::in | std::ios::binary);
+    obs::crumb("C06", "load", "own loader opt=" + std::to_string(c.opt) + " next to the built object");
+    c.d = load_own(c.kind, ss, c.opt);
+    obs::count("eval.load");
+    if (!c.d) obs::violation("C06", "load", "load-failed", "own", "own loader returned NULL for a valid image");
+    else {
+      long pos = (long)ss.tellg();
+      obs::count("eval.consumed");
+      if (ss.fail() || pos != (long)img.size())
+        obs::violation("C06", "load", "leftover-bytes", "own", "loader consumed " + std::to_string(pos) + " of " + std::to_string(img.size()) + " bytes");
+    }
+    {
+      obs::crumb("C07", "extract", "probe of the built object next to its loaded copy");
+      uint len = 0;
+      uchar *e = fresh->extract(1, &len);
+      delete[] e;
+    }
+    obs::crumb("C07", "destroy", "delete built object (loaded copy alive)");
+    delete fresh;
+    fresh = NULL;
   } else if (state == "survivor") {
     // the built object stays; a loaded copy and a second built copy live next to it and are destroyed before it is queried
     obs::crumb("C06,C08", "save", "save for the short-lived copy");
@@ -365,7 +390,7 @@ int main(int argc, char **argv) {
   }
   obs::count("state_" + state);
   // a loaded dictionary that answers wrongly also violates the persistence round trip; a re-saved one the re-save clause
-  if (lstate == "own" || lstate == "gen" || lstate == "concat") obs::extra_props = ",C06";
+  if (lstate == "own" || lstate == "gen" || lstate == "concat" || lstate == "heir") obs::extra_props = ",C06";
   if (state == "resaved") obs::extra_props = ",C06,C08";
   if (state == "survivor") obs::extra_props = ",C14";   // another object's life cycle changed this object's answers
   strncpy(obs::extra_props_c, obs::extra_props.c_str(), sizeof(obs::extra_props_c) - 1);
